@@ -1,6 +1,7 @@
 package main
 
 import (
+	"encoding/json"
 	"flag"
 	"fmt"
 	"os"
@@ -39,22 +40,22 @@ func main() {
 }
 
 type checkOpts struct {
-	property string
-	tier     string
-	repo     string
-	verif    string
-	seed     int
-	timeout  int
-	workers  int
-	funcs    string
-	dump     string
-	solver   string
-	keep     bool
-	verbose  bool
+	property   string
+	tier       string
+	repo       string
+	verif      string
+	seed       int
+	timeout    int
+	workers    int
+	funcs      string
+	dump       string
+	solver     string
+	keep       bool
+	verbose    bool
 	noEvidence bool
-	mutant   string
-	noReplay bool
-	overlay  map[string][]byte
+	mutant     string
+	noReplay   bool
+	overlay    map[string][]byte
 }
 
 func cmdCheck(args []string) int {
@@ -93,9 +94,9 @@ func cmdCheck(args []string) int {
 }
 
 type fnReport struct {
-	tr    *FnTrans
-	err   error
-	nObl  int
+	tr   *FnTrans
+	err  error
+	nObl int
 }
 
 func runCheck(o *checkOpts) int {
@@ -139,6 +140,8 @@ func runCheck(o *checkOpts) int {
 	var obls []*Obligation
 	broken := false
 	var cs []*Contract
+	anchorFiles := anchorFilesOf(o)
+	viaAnchor := map[*Contract]bool{}
 	for _, cf := range eng.files {
 		for _, c := range cf.Contracts {
 			if eng.fnOf[c] == nil || c.NoBody {
@@ -148,6 +151,15 @@ func runCheck(o *checkOpts) int {
 			for _, p := range c.Props {
 				if props[p] {
 					has = true
+				}
+			}
+			if !has && len(anchorFiles) > 0 {
+				// a function under contract that lives in one of the property's anchor files belongs
+				// to the property's check even when its contract was written for another property
+				pos := eng.fnOf[c].Prog.Fset.Position(eng.fnOf[c].Pos())
+				if rel, err := filepath.Rel(o.repo, pos.Filename); err == nil && anchorFiles[rel] {
+					has = true
+					viaAnchor[c] = true
 				}
 			}
 			if !has || (o.funcs != "" && !strings.Contains(c.Func, o.funcs)) {
@@ -195,7 +207,7 @@ func runCheck(o *checkOpts) int {
 		short := strings.TrimPrefix(or.pkg, "github.com/google/certificate-transparency-go/")
 		obls = append(obls, &Obligation{Name: fmt.Sprintf("%s.%s/contract-attached#1", short, or.c.Func), Kind: "contract-attached", Fn: short + "." + or.c.Func, Props: or.c.Props,
 			Expect: "unsat", Clause: "the function the contract is written on exists", Syntactic: true, Solver: "syntactic", Status: "failed", Answer: "syntactic",
-			Pos: fmt.Sprintf("%s:%d", or.c.File, or.c.Line),
+			Pos:   fmt.Sprintf("%s:%d", or.c.File, or.c.Line),
 			Model: fmt.Sprintf("no function %s in %s: the %d ensures / %d site clauses of its contract cannot be checked", or.c.Func, or.pkg, len(or.c.Ensures), len(or.c.Asserts))})
 	}
 	if o.funcs == "" {
@@ -302,4 +314,34 @@ func defaultWorkers() int {
 		n = 2
 	}
 	return n
+}
+
+// anchorFilesOf reads the anchor files of the property being checked from properties.jsonl. It is a
+// diagnostic switch only (GOVC_ANCHORS=1), used when triaging a missed seed to find which contract in
+// the anchor files notices the change; registered checks never set it, because an obligation written
+// for another property failing would be reported under this one.
+func anchorFilesOf(o *checkOpts) map[string]bool {
+	if o.property == "" || os.Getenv("GOVC_ANCHORS") != "1" {
+		return nil
+	}
+	data, err := os.ReadFile(filepath.Join(o.verif, "properties.jsonl"))
+	if err != nil {
+		return nil
+	}
+	out := map[string]bool{}
+	for _, line := range strings.Split(string(data), "\n") {
+		var rec struct {
+			ID      string `json:"id"`
+			Anchors struct {
+				Files []string `json:"files"`
+			} `json:"anchors"`
+		}
+		if json.Unmarshal([]byte(line), &rec) != nil || rec.ID != o.property {
+			continue
+		}
+		for _, f := range rec.Anchors.Files {
+			out[f] = true
+		}
+	}
+	return out
 }
